@@ -129,6 +129,7 @@ pub fn op_strategy() -> BoxedStrategy<Op> {
         1 => Just(Op::Settle),
         2 => any::<u8>().prop_map(Op::Release),
         1 => any::<u8>().prop_map(Op::DropReceipt),
+        1 => (0u8..4).prop_map(Op::Inbound),
         1 => prop::sample::select(vec![0u8, 3]).prop_map(|bad| Op::StreamStart { qos: 1, declared: 6, bad }),
         1 => prop::sample::select(vec![1u8, 3]).prop_map(|len| Op::Chunk { stream: 0, len }),
     ]
@@ -156,7 +157,7 @@ pub fn run(ctx: &Ctx, started: Instant) -> i32 {
         level: "exploration",
         rule: "histories of 3..25 ops for send limits 1..4 established via config / HandshakeAck::max_send / peer Receive Maximum lower or higher than the configured value (client: CONNACK Receive Maximum): create or create+poll a sink future \
                (QoS 1, QoS 2, subscribe, unsubscribe, ready(), at most one streamed QoS 1 publish created with or without a first poll; optionally 'send again on completion'), poll / drop any owned future in any order, peer acknowledgements in order of receipt singly or batched in one write, QoS 2 release / receipt drop, \
-               peer window stall and release with a 64-byte write watermark, yields. Oracle after every op with an open window: QoS>0 PUBLISH frames on the wire minus final acknowledgements sent by the peer <= limit; after settle/ack also \
+               peer window stall and release with a 64-byte write watermark, inbound packets that make the endpoint write responses, yields. Oracle after every op with an open window: QoS>0 PUBLISH frames on the wire minus final acknowledgements sent by the peer <= limit; after settle/ack also \
                credit() == limit - outstanding. Non-trivial = a sender was parked on a full window and later proceeded with >= 2 senders; distinct = (role, limit, how, op-kind trace)"
             .into(),
         exhaustive: false,
